@@ -30,6 +30,7 @@ including `load`, and the merge scenario).
 -/
 import AutosarVerif.Lemmas.Files
 import AutosarVerif.Lemmas.FileOps
+import AutosarVerif.Lemmas.Reachable
 import AutosarVerif.Model.ToySpec
 
 namespace AV.C10
@@ -54,6 +55,11 @@ theorem C10_remove_sub_element_keeps_parent_files (S : Spec) (w : World) (p c : 
     (opRemove S w p c).1.filesOk := opRemove_ok S w p c hw
 theorem C10_create_sub_element_keeps_parent_files (S : Spec) (V : Env) (w : World) (p name : Nat) (pos : Option Nat)
     (hw : w.filesOk) : (opCreate S V w p name pos).1.filesOk := opCreate_ok S V w p name pos hw
+
+/-- invariant by induction over operations: in every state reachable by any history of the core operations
+(`Model/Step.lean`, the step function the driver runs) every local file set lies within the effective set of the parent -/
+theorem C10_every_reachable_state_keeps_parent_files (S : Spec) (V : Env) (rootAttrs : List (Nat × CDv)) (ops : List Op) :
+    (run S V rootAttrs ops).filesOk := (run_inv S V rootAttrs ops).2
 
 /-- the walk of `add_to_file` one level: the statement the induction carries -/
 theorem C10_add_walk (S : Spec) (f : Nat) (its : Items) (path pe : List Nat) (ps : Bool) (h : FilesOk pe its) :
